@@ -28,7 +28,16 @@ RULE = ("Six case modes. basis: fshift applied to the complete impulse basis eye
         "Tolerances, absolute on unit-amplitude inputs: 1e-12 + 4e-15*|shift| (float64; the second term is the double "
         "rounding of a phase of pi*|shift| rad) and 2e-5 (float32), summed over the two shifts of a composition. "
         "Non-trivial = a non-integer shift, or per-trace shifts, or prime n (parabola: non-integer interior vertex). "
-        "Distinct = distinct case hash.")
+        "Distinct = distinct case hash. Dimensions drawn on top of every Hypothesis case (absent = plain form): "
+        "fshift call form (axis by keyword / positional / omitted when it is the last one / s by keyword / every "
+        "parameter by keyword), read-only w and read-only / strided / reversed-view / unsigned per-trace shift arrays, "
+        "w as C / F / strided / reversed view, the spectral input as C / F / strided view, 1-2 further calls with the "
+        "SAME argument objects (must reproduce the first answer), a call on other data of the same shape first; "
+        "wave_shift_corrmax / shift_waveform / parabolic_max / generate_waveform with float32 (parabolic_max also "
+        "int32 / uint16 samples, oracle = the parabola through the three samples actually passed), strided / reversed "
+        "/ Fortran / read-only arguments where the unchanged tree accepts them, mixed float widths, repeated calls "
+        "with the same objects and after a call on other data; generate_waveform with fs / velocity / decay omitted "
+        "(must equal the call spelling out the signature defaults) and with the default spike / default coordinates.")
 EXHAUSTIVE_NOTE = ("all lengths n <= 256 (quick) / n <= 2048 (thorough) x axis {0,1} x dtype {f4,f8} on the full impulse "
                    "basis with a fixed list of shifts (all integer shifts in (-n,n) for n <= 32); the shift values "
                    "themselves (a continuum) and the N-D / layout / scalar-type combinations are sampled")
@@ -39,7 +48,17 @@ ASSUMPTIONS = [
     "complex (already rfft'd) input is passed as a copy: the property only promises that a real-valued input is left "
     "untouched (fshift multiplies a complex input in place)",
     "0-d arrays and Python lists as shift argument are outside the quantifier (scalar = Python/NumPy scalar, per-trace "
-    "= ndarray with one value per trace)",
+    "= ndarray with one value per trace): the unchanged tree rejects them (s.reshape); lists as w / spike / "
+    "wf_cluster / x / wxy are rejected as well (.shape)",
+    "read-only arrays: accepted (and drawn) for a real w, the per-trace shifts, both spikes of wave_shift_corrmax, "
+    "parabolic_max and generate_waveform; a complex w is multiplied in place and shift_waveform zeroes NaNs of its "
+    "argument in place by design, so both reject read-only input and get writeable arrays (a fresh spectral copy per "
+    "call)",
+    "a repeated call with the same argument objects must agree with the first call within the tolerance of one shift "
+    "(fshift) / satisfy the same oracle again (the other entry points); whether shift_waveform and generate_waveform "
+    "leave their arguments untouched is only observed through that second call",
+    "parabolic_max on rows whose maximum value occurs more than once is only judged when the two occurrences are "
+    "adjacent interior samples (first/last-maximum conventions then agree)",
     "delay estimation is only demanded for smooth spikes (Gaussian derivatives, sigma >= 2 samples) that stay inside "
     "the window with a margin of (5+order) sigma and |shift| < n/2",
     "the amplitude / delay formulas of neurowaveforms.model are not part of C07: each output trace is fitted (scale and "
